@@ -600,7 +600,10 @@ class Watcher(object):
         # when an on_demand process dies, do not restart it until
         # the next event
         if self.pending_socket_event:
-            self._status = "stopped"
+            # the watcher goes back to waiting for a connection once its
+            # last worker is gone; while some are left it is still running
+            if not self.processes:
+                self._status = "stopped"
             return
         for i in self._found_wids:
             self.spawn_process(i)
